@@ -11,6 +11,11 @@ for pid in ids:
     p = os.path.join(ROOT, "props", pid + ".json")
     if os.path.exists(p):
         r = json.load(open(p))
+        unproved = r.get("level") == "proof" and not r.get("theorems")
+        if unproved:
+            r = dict(r, claimed=False, not_applicable_reason=(
+                "not claimed in this revision: the model and the correspondence run exist, but no property "
+                "theorem is registered yet, so nothing would decide it by proof"))
         if r.get("claimed", True):
             checks.append({
                 "property_id": pid,
